@@ -6,6 +6,9 @@ open LemoModel LemoModel.Wal Driver
 structure St where
   file : Bytes := []
   q : QState := QState.init
+  wfile : Bytes := []
+  woff : Nat := 0
+  wpend : Nat := 0
 
 def hexDigit (n : Nat) : Char :=
   if n < 10 then Char.ofNat (48 + n) else Char.ofNat (87 + n)
@@ -100,6 +103,28 @@ def step (s : St) (w : List String) : St × String :=
     match cut.toNat?, zt.toNat? with
     | some cut, some zt => (s, showScan (scan (s.file.take cut ++ zeros zt)))
     | _, _ => (s, "bad-op")
+  | ["wload", h] =>
+    match parseHex? h with
+    | some b => ({ s with wfile := b, woff := 0, wpend := 0 }, s!"len {b.length}")
+    | none => (s, "bad-op")
+  | ["wrestart"] =>
+    match checkFile s.wfile with
+    | some (f, off, recs) =>
+      let tail := recs.foldl (fun acc r => acc ++ " " ++ recStr r) ""
+      ({ s with wfile := f, woff := off, wpend := recs.length }, s!"ok off={off} size={f.length} n={recs.length}{tail}")
+    | none =>
+      match (scan s.wfile).stop with
+      | .err e => (s, s!"fail:err:{e}")
+      | _ => (s, "fail:hang")
+  | ["wput", w1] =>
+    match parseRec? w1 with
+    | some r =>
+      -- emptyFile: the file is recreated only when nothing is pending
+      let (f0, o0) := if s.wpend = 0 then (([] : Bytes), 0) else (s.wfile, s.woff)
+      let enc := fileUtilsEncode 0 r
+      let f1 := writeAt f0 o0 enc
+      ({ s with wfile := f1, woff := o0 + enc.length, wpend := s.wpend + 1 }, s!"ok off={o0 + enc.length} size={f1.length}")
+    | none => (s, "bad-op")
   | ["qnew"] => ({ s with q := QState.init }, "ok")
   | "qput" :: ws =>
     match parseRecs? ws with
